@@ -13,6 +13,9 @@ import (
 func LoadInt32(addr *int32) int32 {
 	if e := vsched.Active(); e != nil {
 		e.AtomicLoad(addr)
+		v := atomic.LoadInt32(addr)
+		e.Observe(uint64(v))
+		return v
 	}
 	return atomic.LoadInt32(addr)
 }
@@ -27,6 +30,9 @@ func StoreInt32(addr *int32, val int32) {
 func AddInt32(addr *int32, delta int32) int32 {
 	if e := vsched.Active(); e != nil {
 		e.AtomicRMW(addr)
+		v := atomic.AddInt32(addr, delta)
+		e.Observe(uint64(v))
+		return v
 	}
 	return atomic.AddInt32(addr, delta)
 }
@@ -34,6 +40,9 @@ func AddInt32(addr *int32, delta int32) int32 {
 func SwapInt32(addr *int32, val int32) int32 {
 	if e := vsched.Active(); e != nil {
 		e.AtomicRMW(addr)
+		v := atomic.SwapInt32(addr, val)
+		e.Observe(uint64(v))
+		return v
 	}
 	return atomic.SwapInt32(addr, val)
 }
@@ -41,6 +50,9 @@ func SwapInt32(addr *int32, val int32) int32 {
 func CompareAndSwapInt32(addr *int32, old, val int32) bool {
 	if e := vsched.Active(); e != nil {
 		e.AtomicRMW(addr)
+		v := atomic.CompareAndSwapInt32(addr, old, val)
+		e.Observe(b2u(v))
+		return v
 	}
 	return atomic.CompareAndSwapInt32(addr, old, val)
 }
@@ -57,6 +69,9 @@ func (x *Int32) CompareAndSwap(old, val int32) bool { return CompareAndSwapInt32
 func LoadInt64(addr *int64) int64 {
 	if e := vsched.Active(); e != nil {
 		e.AtomicLoad(addr)
+		v := atomic.LoadInt64(addr)
+		e.Observe(uint64(v))
+		return v
 	}
 	return atomic.LoadInt64(addr)
 }
@@ -71,6 +86,9 @@ func StoreInt64(addr *int64, val int64) {
 func AddInt64(addr *int64, delta int64) int64 {
 	if e := vsched.Active(); e != nil {
 		e.AtomicRMW(addr)
+		v := atomic.AddInt64(addr, delta)
+		e.Observe(uint64(v))
+		return v
 	}
 	return atomic.AddInt64(addr, delta)
 }
@@ -78,6 +96,9 @@ func AddInt64(addr *int64, delta int64) int64 {
 func SwapInt64(addr *int64, val int64) int64 {
 	if e := vsched.Active(); e != nil {
 		e.AtomicRMW(addr)
+		v := atomic.SwapInt64(addr, val)
+		e.Observe(uint64(v))
+		return v
 	}
 	return atomic.SwapInt64(addr, val)
 }
@@ -85,6 +106,9 @@ func SwapInt64(addr *int64, val int64) int64 {
 func CompareAndSwapInt64(addr *int64, old, val int64) bool {
 	if e := vsched.Active(); e != nil {
 		e.AtomicRMW(addr)
+		v := atomic.CompareAndSwapInt64(addr, old, val)
+		e.Observe(b2u(v))
+		return v
 	}
 	return atomic.CompareAndSwapInt64(addr, old, val)
 }
@@ -101,6 +125,9 @@ func (x *Int64) CompareAndSwap(old, val int64) bool { return CompareAndSwapInt64
 func LoadUint32(addr *uint32) uint32 {
 	if e := vsched.Active(); e != nil {
 		e.AtomicLoad(addr)
+		v := atomic.LoadUint32(addr)
+		e.Observe(uint64(v))
+		return v
 	}
 	return atomic.LoadUint32(addr)
 }
@@ -115,6 +142,9 @@ func StoreUint32(addr *uint32, val uint32) {
 func AddUint32(addr *uint32, delta uint32) uint32 {
 	if e := vsched.Active(); e != nil {
 		e.AtomicRMW(addr)
+		v := atomic.AddUint32(addr, delta)
+		e.Observe(uint64(v))
+		return v
 	}
 	return atomic.AddUint32(addr, delta)
 }
@@ -122,6 +152,9 @@ func AddUint32(addr *uint32, delta uint32) uint32 {
 func SwapUint32(addr *uint32, val uint32) uint32 {
 	if e := vsched.Active(); e != nil {
 		e.AtomicRMW(addr)
+		v := atomic.SwapUint32(addr, val)
+		e.Observe(uint64(v))
+		return v
 	}
 	return atomic.SwapUint32(addr, val)
 }
@@ -129,6 +162,9 @@ func SwapUint32(addr *uint32, val uint32) uint32 {
 func CompareAndSwapUint32(addr *uint32, old, val uint32) bool {
 	if e := vsched.Active(); e != nil {
 		e.AtomicRMW(addr)
+		v := atomic.CompareAndSwapUint32(addr, old, val)
+		e.Observe(b2u(v))
+		return v
 	}
 	return atomic.CompareAndSwapUint32(addr, old, val)
 }
@@ -145,6 +181,9 @@ func (x *Uint32) CompareAndSwap(old, val uint32) bool { return CompareAndSwapUin
 func LoadUint64(addr *uint64) uint64 {
 	if e := vsched.Active(); e != nil {
 		e.AtomicLoad(addr)
+		v := atomic.LoadUint64(addr)
+		e.Observe(uint64(v))
+		return v
 	}
 	return atomic.LoadUint64(addr)
 }
@@ -159,6 +198,9 @@ func StoreUint64(addr *uint64, val uint64) {
 func AddUint64(addr *uint64, delta uint64) uint64 {
 	if e := vsched.Active(); e != nil {
 		e.AtomicRMW(addr)
+		v := atomic.AddUint64(addr, delta)
+		e.Observe(uint64(v))
+		return v
 	}
 	return atomic.AddUint64(addr, delta)
 }
@@ -166,6 +208,9 @@ func AddUint64(addr *uint64, delta uint64) uint64 {
 func SwapUint64(addr *uint64, val uint64) uint64 {
 	if e := vsched.Active(); e != nil {
 		e.AtomicRMW(addr)
+		v := atomic.SwapUint64(addr, val)
+		e.Observe(uint64(v))
+		return v
 	}
 	return atomic.SwapUint64(addr, val)
 }
@@ -173,6 +218,9 @@ func SwapUint64(addr *uint64, val uint64) uint64 {
 func CompareAndSwapUint64(addr *uint64, old, val uint64) bool {
 	if e := vsched.Active(); e != nil {
 		e.AtomicRMW(addr)
+		v := atomic.CompareAndSwapUint64(addr, old, val)
+		e.Observe(b2u(v))
+		return v
 	}
 	return atomic.CompareAndSwapUint64(addr, old, val)
 }
@@ -189,6 +237,9 @@ func (x *Uint64) CompareAndSwap(old, val uint64) bool { return CompareAndSwapUin
 func LoadUintptr(addr *uintptr) uintptr {
 	if e := vsched.Active(); e != nil {
 		e.AtomicLoad(addr)
+		v := atomic.LoadUintptr(addr)
+		e.Observe(uint64(v))
+		return v
 	}
 	return atomic.LoadUintptr(addr)
 }
@@ -203,6 +254,9 @@ func StoreUintptr(addr *uintptr, val uintptr) {
 func AddUintptr(addr *uintptr, delta uintptr) uintptr {
 	if e := vsched.Active(); e != nil {
 		e.AtomicRMW(addr)
+		v := atomic.AddUintptr(addr, delta)
+		e.Observe(uint64(v))
+		return v
 	}
 	return atomic.AddUintptr(addr, delta)
 }
@@ -210,6 +264,9 @@ func AddUintptr(addr *uintptr, delta uintptr) uintptr {
 func SwapUintptr(addr *uintptr, val uintptr) uintptr {
 	if e := vsched.Active(); e != nil {
 		e.AtomicRMW(addr)
+		v := atomic.SwapUintptr(addr, val)
+		e.Observe(uint64(v))
+		return v
 	}
 	return atomic.SwapUintptr(addr, val)
 }
@@ -217,6 +274,9 @@ func SwapUintptr(addr *uintptr, val uintptr) uintptr {
 func CompareAndSwapUintptr(addr *uintptr, old, val uintptr) bool {
 	if e := vsched.Active(); e != nil {
 		e.AtomicRMW(addr)
+		v := atomic.CompareAndSwapUintptr(addr, old, val)
+		e.Observe(b2u(v))
+		return v
 	}
 	return atomic.CompareAndSwapUintptr(addr, old, val)
 }
@@ -271,4 +331,11 @@ func (v *Value) Store(val any) {
 		e.AtomicStore(v)
 	}
 	v.real.Store(val)
+}
+
+func b2u(b bool) uint64 {
+	if b {
+		return 1
+	}
+	return 0
 }
